@@ -24,6 +24,17 @@ CHECKS = {
    note="Trusted: clang CFG, the interval domain (k*N+c bounds, N>=1; legacy class N>=2). Not decided: floating-point "
         "rounding at exact bin edges, weight conservation as a numeric sum (follows from one write per accepted value), "
         "callers' choice of ranges (csg_density, tabulatedpotential)."),
+ "C02": dict(cat="translation_validation", ref="DESIGN.md section 4 C02",
+   technique="value numbering / canonical-form comparison of the three BCShortestConnection kernels (and volume/height kernels) against the closed-form minimum-image formulas; AST decision-table and override-set checks",
+   text="The code of every BCShortestConnection override is folded into an expression over r_i, r_j, box elements and an "
+        "uninterpreted round atom and compared, as a rational-function identity, with the property's formula (open: "
+        "difference; orthorhombic: d-L*round(d/L); triclinic: sequential z,y,x reduction each stage consuming the "
+        "previous). Holding for the formula means holding for all points and boxes; integer-combination, antisymmetry "
+        "and shift-invariance follow from the formula. Box volume/height kernels, the box-type decision table and the "
+        "forwarding functions are checked the same way.",
+   note="Programs = kernels validated. Trusted: clang front end, sympy polynomial arithmetic. Not decided: floating-point "
+        "ties at exactly half a box; the geometric theorem that the sequential reduction is shortest for reduced "
+        "triclinic boxes (a property of the formula, not of the code)."),
 }
 NA = {
 }
